@@ -29,9 +29,10 @@ ASSUMPTIONS = [
 ]
 BOUNDS = {
     # (threads, body, granularity, preemption bound)
-    'quick': [(2, 'create', 'line+ctor-opcode', 1), (2, 'create-close-create', 'line', 1)],
+    'quick': [(2, 'create', 'line+ctor-opcode', 1), (2, 'create-close-create', 'line', 1), (2, 'sub-vs-plain', 'line+ctor-opcode', 1)],
     'thorough': [(2, 'create', 'line+ctor-opcode', 2), (2, 'create', 'line', 3), (2, 'create-close-create', 'line+ctor-opcode', 2),
-                 (3, 'create', 'line', 2), (3, 'create', 'line+ctor-opcode', 1)],
+                 (3, 'create', 'line', 2), (3, 'create', 'line+ctor-opcode', 1), (2, 'sub-vs-plain', 'line+ctor-opcode', 2),
+                 (2, 'plain-vs-sub', 'line', 2)],
 }
 _S = {}
 
@@ -60,11 +61,22 @@ def _reset():
         setattr(store, k, v)
 
 
-def _body(kind):
+def _sub():
+    """A user-defined subclass of the store (created once)."""
+    if 'Sub' not in _S:
+        _S['Sub'] = type('HarnessSubStore', (_S['TS'],), {})
+    return _S['Sub']
+
+
+def _bodies(kind, nthreads):
     TS = _S['TS']
 
     def create():
         TS.create()
+        return 'created'
+
+    def create_sub():
+        _sub().create()
         return 'created'
 
     def ccc():
@@ -73,7 +85,11 @@ def _body(kind):
         TS.create()
         return 'created'
 
-    return {'create': create, 'create-close-create': ccc}[kind]
+    if kind == 'sub-vs-plain':
+        return [create_sub] + [create] * (nthreads - 1)
+    if kind == 'plain-vs-sub':
+        return [create] + [create_sub] * (nthreads - 1)
+    return [{'create': create, 'create-close-create': ccc}[kind]] * nthreads
 
 
 def _observe(s):
@@ -92,7 +108,7 @@ def _is_ctor(code):
 def _make(nthreads, body, gran):
     def make():
         _reset()
-        return sched.Scheduler([_body(body)] * nthreads, 'trajectories/store.py', opcode_in=_is_ctor, locks=_S['locks'], observe=_observe, granularity=gran)
+        return sched.Scheduler(_bodies(body, nthreads), 'trajectories/store.py', opcode_in=_is_ctor, locks=_S['locks'], observe=_observe, granularity=gran)
 
     return make
 
@@ -119,8 +135,8 @@ def _explore_branch(args):
     return st
 
 
-OWNER_EVENTS = ['create_mem', 'create_file', 'close', 'open_ok', 'open_missing', 'open_invalid', 'append_invalid']
-OTHER_ATTEMPTS = ['create_mem', 'create_file', 'open_ok']
+OWNER_EVENTS = ['create_mem', 'create_sub', 'create_file', 'close', 'open_ok', 'open_missing', 'open_invalid', 'append_invalid']
+OTHER_ATTEMPTS = ['create_mem', 'create_sub', 'create_file', 'open_ok']
 
 
 def _traj(k):
@@ -151,6 +167,8 @@ def _seq_case(case):
     def construct(kind):
         if kind == 'create_mem':
             return TS.create()
+        if kind == 'create_sub':
+            return _sub().create()  # an instance of a user-defined subclass of the store
         if kind == 'create_file':
             state['files'] += 1
             p = tmp / f'f{state["files"]}_{threading.get_ident()}.nc'
